@@ -23,6 +23,7 @@ type Unit struct {
 	Entries   []Entry           `json:"entries"`
 	Redirects map[string]string `json:"redirects"`
 	Tests     bool              `json:"tests"`
+	Native    []string          `json:"native_files"`
 }
 
 type checkOpts struct {
@@ -251,7 +252,7 @@ func runUnit(spec *Spec, o *checkOpts, openKnown map[string]bool, openList []Kno
 
 func unitSpec(spec *Spec, u *Unit) *Spec {
 	s := *spec
-	s.Package, s.Dir, s.Files, s.Entries, s.Redirects, s.Tests = u.Package, u.Dir, u.Files, u.Entries, u.Redirects, u.Tests
+	s.Package, s.Dir, s.Files, s.Entries, s.Redirects, s.Tests, s.Native = u.Package, u.Dir, u.Files, u.Entries, u.Redirects, u.Tests, u.Native
 	return &s
 }
 
@@ -286,7 +287,7 @@ func cmdCheck(args []string) int {
 		return 2
 	}
 	if len(spec.Units) == 0 {
-		spec.Units = []Unit{{Package: spec.Package, Dir: spec.Dir, Files: spec.Files, Entries: spec.Entries, Redirects: spec.Redirects, Tests: spec.Tests}}
+		spec.Units = []Unit{{Package: spec.Package, Dir: spec.Dir, Files: spec.Files, Entries: spec.Entries, Redirects: spec.Redirects, Tests: spec.Tests, Native: spec.Native}}
 	}
 	if o.workers <= 0 {
 		o.workers = runtime.NumCPU()
@@ -367,7 +368,20 @@ func cmdCheck(args []string) int {
 		fmt.Println(ln)
 	}
 	if len(broken) > 0 {
+		seenFirst := map[string]bool{}
+		shown := 0
 		for _, b := range uniqStrings(broken) {
+			first := strings.SplitN(b, "\n", 2)[0]
+			if seenFirst[first] {
+				continue
+			}
+			seenFirst[first] = true
+			if shown++; shown > 25 {
+				break
+			}
+			if len(b) > 1500 {
+				b = b[:1500] + "…"
+			}
 			fmt.Fprintln(os.Stderr, "BROKEN:", b)
 		}
 		if exit == 0 {
